@@ -7304,6 +7304,10 @@ class DDLCompiler(Compiled):
     def _prepared_index_name(
         self, index: Index, include_schema: bool = False
     ) -> str:
+        if index.name is None:
+            raise exc.CompileError(
+                "CREATE / DROP INDEX requires that the index have a name"
+            )
         if index.table is not None:
             effective_schema = self.preparer.schema_for_object(index.table)
         else:
